@@ -252,10 +252,12 @@ def refSys (code : String) : Option (RefSys α) :=
   | _, _ => none
 
 /-- is the pair inside the scope of the single-chain datum reference?  A `datum=none` side means
-"no datum operation" by definition of PROJ.4. -/
+"no datum operation" by definition of PROJ.4 — unless the same definition also gives `+towgs84`,
+which makes it a 3/7-parameter datum in PROJ.4 (`pj_datum_set` reads `towgs84` after `datum`),
+in proj4js and in the port alike. -/
 def datumNone (code : String) : Bool :=
   let o : Js.Obj α := Js.projString code
-  o.datumCode == some "none"
+  o.datumCode == some "none" && o.datum_params.isNone
 
 /-- reference forward: geographic (degrees, source system) to projected (destination units) -/
 def refForward (src dst : RefSys α) (noShift : Bool) (lonDeg latDeg : α) : Option (α × α) :=
